@@ -177,6 +177,9 @@ pub enum Profile {
     CrashySparse,
     /// fill a self-formatted image until the host file outgrows its refcount table (C12)
     Grow,
+    /// writes on both sides of L2 slice boundaries, flush / reopen (cold caches), discards and
+    /// multi-cluster operations across the boundaries (C18, C17: loads in the middle of an operation)
+    SliceCross,
     /// general operations on the sparse geometry class
     Sparse,
 }
@@ -302,6 +305,16 @@ pub fn gen_case(seed: u64, id: usize, profile: Profile, nops: usize) -> Case {
         c.size = rng.range(130, 200) * cs;
         c.rb = Some((9, (*rng.pick(&[2usize, 3, 4, 8])) << 9));
         c.l2 = pick_slice(&mut rng, 9, c.cb, false);
+    }
+    if profile == Profile::SliceCross {
+        c.cb = *rng.pick(&[9usize, 10]);
+        c.bsb = 9;
+        c.ro = *rng.pick(&[3u8, 4, 4, 5]);
+        let cs = 1u64 << c.cb;
+        // 512-byte slices: 64 clusters each; four to six slices
+        c.size = 64 * cs * rng.range(4, 6);
+        c.l2 = Some((9, (*rng.pick(&[2usize, 2, 4])) << 9));
+        c.rb = Some((9, (*rng.pick(&[2usize, 4])) << 9));
     }
     if profile == Profile::Grow {
         // one block of reftable entries (64) covers 64 * rb_entries clusters: with 512-byte
@@ -704,6 +717,33 @@ pub fn gen_ops(rng: &mut Rng, c: &mut Case, profile: Profile, nops: usize) {
                 }
             }
             Profile::CrashySparse | Profile::Sparse => unreachable!(),
+            Profile::SliceCross => {
+                let span = 64 * cs; // guest bytes per L2 slice
+                let nsl = c.size / span;
+                let b = rng.range(1, nsl - 1) * span; // a slice boundary
+                match r {
+                    0..=34 => {
+                        // a cluster just below or just above the boundary
+                        let off = if rng.chance(1, 2) { b - cs * rng.range(1, 2) } else { b + cs * rng.below(2) };
+                        Op::Write { off, len: cs, tok }
+                    }
+                    35..=59 => {
+                        let off = b - cs * rng.range(1, 3);
+                        Op::Discard { off, len: cs * rng.range(3, 6) }
+                    }
+                    60..=69 => {
+                        let off = b - cs * rng.range(1, 3);
+                        Op::Write { off, len: cs * rng.range(3, 5), tok }
+                    }
+                    70..=76 => {
+                        let off = b - cs * rng.range(1, 3);
+                        Op::Read { off, len: cs * rng.range(3, 5) }
+                    }
+                    77..=86 => Op::Flush,
+                    87..=95 => Op::Reopen { bsb: 9, l2: c.l2, rb: c.rb },
+                    _ => Op::Shrink,
+                }
+            }
             Profile::Grow => {
                 // mostly a fill in big pieces (random order), some flush+fsync pairs, a few
                 // discards and rewrites; the table is outgrown when ~97% is written
